@@ -426,9 +426,82 @@ def enum_global():
     out.append(gmk('enum_global', ops))
     return out
 
+# ---------------------------------------------------------------- the cached needs_rpki flag
+RPKI_VRPS = [[ip4(10, 1, 2, 0), 24, 24, 65001], [ip6(V6BASE), 32, 32, 65001]]
+def rpki_routes():
+    """(net, attrs): origin validation Valid / Invalid / NotFound under RPKI_VRPS"""
+    return [(n4(10, 1, 2, 0, 24), [aspath_attr([(2, [65002, 65001])])]), (n4(10, 1, 2, 0, 24), [aspath_attr([(2, [65009])])]),
+            (n4(11, 0, 0, 0, 8), [aspath_attr([(2, [65001])])]), (n4(10, 1, 2, 0, 24), [])]
+
+def splits(perm):
+    a, b, c = perm
+    return [[[a, b, c]], [[a], [b, c]], [[a, b], [c]], [[a], [b], [c]]]
+
+def enum_needs_rpki():
+    """an assignment holding a policy with an rpki condition, built in one call or accumulated in two or three calls in every
+    order, the rpki policy in every position; evaluated, the rpki policy deleted from it (flag falls back), re-added, replaced.
+    Table level: the flag is observed in the dump, evaluation gets the table explicitly."""
+    out = []
+    k = 0
+    for perm in itertools.permutations((1, 2, 3)):
+        for calls in splits(perm):
+            for h in (1, 2, 3):
+                for d in (0, 1):
+                    st = (1, 2, 0)[k % 3]; k += 1            # the validation state the condition names: Valid / Invalid / NotFound
+                    # the rpki condition is the first or the second condition of its statement, which is the first or the second of its policy
+                    rc = [[8, st]] if k % 2 else [[13, 1, 0], [8, st]]
+                    stmts = [(i, rc if i == h else [], [2] if i == h else [], act(large=[0, [[7, i, 0]]])) for i in (1, 2, 3)] + [(4, [], [], NOACT())]
+                    others = [i for i in perm if i != h]
+                    evals = [ev(n, a, d=d) for n, a in rpki_routes()]
+                    ops = setup([], stmts, [(i, ([4, i] if (i == h and (k // 2) % 2) else [i])) for i in (1, 2, 3)], [])
+                    for names in calls: ops += [[7, 0, d, 1, names], [10]] + evals[:2]
+                    ops += evals + [[8, d, [h], 0], [10]] + evals[:2] + [[7, 0, d, 1, [h]], [10]] + evals[:2] + \
+                           [[7, 1, d, 1, others], [10]] + evals[:2] + [[7, 1, d, 2, others[:1] + [h]], [10]] + evals + [[8, d, others, 0], [10]] + evals[:2]
+                    out.append(mk('enum_needs_rpki', with_rpki(None, ops, RPKI_VRPS)))
+    return out
+
+def enum_global_rpki():
+    """the same through the daemon's needs_rpki-gated paths: TableManager::apply_import with the stored import slot, the export gate
+    with the global slot, and a peer's export override built by build_assignment with `existing`"""
+    out = []
+    k = 0
+    def route(n, a): return [SRC_E, n, a, [PEER], [], 0, LOCAL, PEER]
+    for perm in itertools.permutations((1, 2, 3)):
+        for calls in splits(perm):
+            for h in (1, 2, 3):
+                for mode in ('import', 'export', 'peer'):
+                    st = (1, 2, 0)[k % 3]; k += 1
+                    rc = [[8, st]] if k % 2 else [[13, 1, 0], [8, st]]
+                    stmts = [[3, i, rc if i == h else [], [2] if i == h else [], act(large=[0, [[7, i, 0]]])] for i in (1, 2, 3)] + [[3, 4, [], [], NOACT()]]
+                    others = [i for i in perm if i != h]
+                    if mode == 'import':
+                        evals = [[26, SRC_E, n, a, [PEER]] for n, a in rpki_routes()]
+                        add = lambda names, dflt=1: [7, 0, 0, dflt, names]
+                        rm = lambda names: [8, 0, names, 0]
+                        setp = lambda names: [7, 1, 0, 1, names]
+                    elif mode == 'export':
+                        evals = [[23, 9] + route(n, a) for n, a in rpki_routes()]          # peer 9 does not exist: the global slot
+                        add = lambda names, dflt=1: [7, 0, 1, dflt, names]
+                        rm = lambda names: [8, 1, names, 0]
+                        setp = lambda names: [7, 1, 1, 1, names]
+                    else:
+                        evals = [[23, 4] + route(n, a) for n, a in rpki_routes()]
+                        add = lambda names, dflt=1: [21, 4, 1, dflt, names]
+                        rm = lambda names: [22, 4, 1, names, 0]
+                        setp = lambda names: [22, 4, 1, [], 1]                              # a peer override is replaced by clearing it and adding again
+                    ops = stmts + [[5, i, ([4, i] if (i == h and (k // 2) % 2) else [i])] for i in (1, 2, 3)] + [[20, 4, []], [25, RPKI_VRPS]]
+                    for names in calls: ops += [add(names), [24]] + evals[:2]
+                    ops += evals + [rm([h]), [24]] + evals[:2] + [add([h]), [24]] + evals[:2] + [setp(others), [24]] + evals[:2]
+                    if mode == 'peer': ops += [add(others), add([h]), [24]] + evals
+                    else: ops += [setp(others[:1] + [h]), [24]] + evals
+                    ops += [rm(others), [24]] + evals[:2]
+                    probes = [[27, n, a] for n in (n4(10, 1, 2, 0, 24), n4(11, 0, 0, 0, 8)) for a in (0, 65000, 65001, 65002, 65009)]
+                    out.append(gmk('enum_global_rpki', ops + probes))
+    return out
+
 def enum_cases():
     cases = []
     for f in (enum_prefix, enum_neighbor, enum_aspath, enum_hops, enum_community, enum_valconds, enum_rpki, enum_actions, enum_chain,
-              enum_api_bytes, enum_crud, enum_crud_statements, enum_crud_policies, enum_global):
+              enum_api_bytes, enum_crud, enum_crud_statements, enum_crud_policies, enum_global, enum_needs_rpki, enum_global_rpki):
         cases += f()
     return cases
